@@ -484,8 +484,20 @@ func paddedText(r *gen.Rng, target int) string {
 		if pad < 0 {
 			pad = 0
 		}
+		// at most 64 KiB of trailing white space (json.Decoder.Token re-scans pending white
+		// space after every refill: megabytes of it read in small pieces take minutes in a
+		// correct streaming jpgo); the rest of the size comes from a string member
 		e := r.Pick([]string{" ", "\n", " \t"})
-		return "{" + core + strings.Repeat(e, pad/len(e)+1)
+		tail := pad
+		if tail > 65536 {
+			tail = 65536
+		}
+		head := `{"pad":"`
+		fill := pad - tail - len(head) - 2
+		if fill < 0 {
+			return "{" + core + strings.Repeat(e, tail/len(e)+1)
+		}
+		return head + strings.Repeat("x", fill) + `",` + core + strings.Repeat(e, tail/len(e)+1)
 	}
 }
 
